@@ -40,7 +40,11 @@ func init() {
 			k.PRecover = 50
 			k.PHole = 60
 			k.PAvail = 90
-			k.WCycleCloser, k.WBadProvide, k.WDupDecorate = 1, 1, 1
+			k.WCycleCloser, k.WBadProvide, k.WDupDecorate = 3, 1, 1
+			// cycles that only run-time resolution meets (exported
+			// constructors of sibling scopes; DeferAcyclicVerification):
+			// IsCycleDetected must be true for those rejections too
+			k.WShadowCycle, k.PCycleKeep, k.PDefer, k.PExport = 1, 25, 30, 25
 			k.WInvoke = 10
 			k.MaxScopes = 5
 			k.PFresh = 85
@@ -48,7 +52,8 @@ func init() {
 			k.MaxOps = 26
 			return k
 		},
-		clauses: []string{CRootCause, CErrIdentity, CErrClass, CSpuriousCycle, CContinued},
+		clauses: []string{CRootCause, CErrIdentity, CErrClass, CSpuriousCycle, CMissedCycleInvoke, CContinued},
+		risky:   "run", // in-process; if a worker dies the driver reports the in-flight case
 		nt: func(l map[string]bool) bool {
 			return l["user-failure"] && (l["fail-depth>=3"] || l["fail-through-group"] || l["fail-cross-scope"])
 		},
@@ -63,6 +68,7 @@ func init() {
 			bk := DefaultBankKnobs()
 			bk.PCallback, bk.PFault, bk.PPanic, bk.PDur = 65, 25, 35, 80
 			bk.PFaultKind = 30
+			bk.PLocPC = 12
 			bk.WInvoke, bk.WDecorate = 8, 3
 			bk.PDeep, bk.PChain = 70, 50
 			bk.MaxOps = 20
